@@ -19,6 +19,7 @@ var checks = map[string]func(*Ctx){
 	"C11": runC11,
 	"C12": runC12,
 	"C13": runC13,
+	"C14": runC14,
 	"C17": runC17,
 	"C18": runC18,
 	"C19": runC19,
